@@ -234,6 +234,10 @@ class Models:
                 if tgt and tgt[0] == "class" and tgt[1].name == "DefinedItemRegistry":
                     g = GlobalMapV(name)
                     g.registry = True
+                    g.unique = True
+                    ua = [k.value for k in expr.keywords if k.arg == "unique_items"] + list(expr.args[:1])
+                    if ua and isinstance(ua[0], ast.Constant):
+                        g.unique = bool(ua[0].value)
                     return g
         if isinstance(expr, ast.Subscript) and isinstance(expr.value, ast.Name):
             # type alias such as UnitDefT = Term['Unit']
@@ -481,6 +485,9 @@ class Models:
             return self.class_attr(obj, cname, attr, node)
         if isinstance(obj, ClsV):
             t = self.st.T(obj.tid)
+            stored = self.st.cls_fields.get((self.st.tfind(obj.tid), attr))
+            if stored is not None:
+                return stored
             if attr == "_ref_unit":
                 if t.generic:
                     return NONE
@@ -504,6 +511,11 @@ class Models:
                 g.owner = obj
                 return g
             if attr == "_definition":
+                d = self.st.type_defs.get(self.st.tfind(obj.tid))
+                if d is not None:
+                    if d == "base":
+                        return NONE
+                    return d
                 c = I.choose(2, f"clsdef({obj.tid})", ["base-class", "derived-class"])
                 if c == 0:
                     return NONE
@@ -570,6 +582,22 @@ class Models:
             I.unsupported(node, f"attribute {attr} of type {obj.name}")
         if isinstance(obj, SuperV):
             return self.super_attr(obj, attr, node)
+        if isinstance(obj, ObjV) and obj.name == "kwargs" and obj.ci is None:
+            def kwcall(args, kwargs, n, o=obj, attr=attr):
+                if attr == "pop":
+                    k = args[0].const if isinstance(args[0], StrV) else None
+                    if k in o.fields:
+                        return o.fields.pop(k)
+                    if len(args) > 1:
+                        return args[1]
+                    self.I.raise_("KeyError", n)
+                if attr == "get":
+                    k = args[0].const if isinstance(args[0], StrV) else None
+                    return o.fields.get(k, args[1] if len(args) > 1 else NONE)
+                if attr in ("keys", "items", "values"):
+                    return ListV(None, tag="kwargs." + attr)
+                self.I.unsupported(n, f"kwargs.{attr}")
+            return NativeV(kwcall, "kwargs." + attr)
         if isinstance(obj, ObjV):
             if attr in obj.fields:
                 return obj.fields[attr]
@@ -623,6 +651,21 @@ class Models:
                 if attr in ("values", "keys", "items"):
                     return ListV(None, tag=f"{g.name}.{attr}")
                 if attr == "register_item":
+                    item = args[0] if args else None
+                    can_dup = getattr(g, "unique", False)
+                    if can_dup and isinstance(item, ClsV):
+                        d = self.st.type_defs.get(self.st.tfind(item.tid))
+                        if d == "base":
+                            can_dup = False     # a base class is its own, unique definition
+                        elif isinstance(d, TermV) and (g.name, self.st.norm(d.mag).key()) in self.st.known_absent:
+                            can_dup = False     # the same definition was just looked up and found free
+                    if can_dup:
+                        c = self.I.choose(2, f"{g.name}.register_item", ["registered", "duplicate-definition"])
+                        if c == 1:
+                            ex = ExcV("ValueError", (), n, self.where(n))
+                            ex.tag = "duplicate-definition"
+                            self.st.effects.pop()       # a rejected registration writes nothing
+                            raise AbsRaise(ex)
                     return Num(RF.atom(("regid", self.st.fresh("r"))), "int")
                 if attr in ("get", "setdefault", "pop", "update", "clear", "popitem"):
                     return OpaqueV(f"{g.name}.{attr}")
@@ -711,6 +754,8 @@ class Models:
         mro = self.prog.mro(sv.ci)
         for c in mro[1:]:
             if attr in c.methods:
+                if attr == "__new__":
+                    return PyFuncV(c.methods[attr])      # static: the class is passed explicitly
                 return self.bind_func(c.methods[attr], sv.self_val, node)
         if attr == "__new__":
             return FuncV("object.__new__")
@@ -732,7 +777,19 @@ class Models:
         if isinstance(obj, ObjV):
             obj.fields[attr] = v
             return
-        if isinstance(obj, (UnitV, ClsV, RateV, TermV)):
+        if isinstance(obj, ClsV):
+            self.st.cls_fields[(self.st.tfind(obj.tid), attr)] = v
+            if attr == "_definition":
+                self.st.type_defs[self.st.tfind(obj.tid)] = "base" if isinstance(v, NoneV) else v
+            elif attr == "_ref_unit":
+                t = self.st.T(obj.tid)
+                if isinstance(v, NoneV):
+                    t.has_ref = False
+                elif isinstance(v, UnitV) and t.has_ref is not False:
+                    t.has_ref = True
+                    t.ref_uid = v.uid
+            return
+        if isinstance(obj, (UnitV, RateV, TermV)):
             # recorded as an effect; ownership rules live in Engine B
             return
         self.I.unsupported(node, f"attribute store on {obj!r}")
@@ -979,7 +1036,16 @@ class Models:
             I.raise_("KeyError", node)
         c = I.choose(2, f"unit_from_term@{getattr(node, 'lineno', '?')}", ["KeyError", "found"])
         if c == 0:
+            st.known_absent.add((g.name, st.norm(key.mag).key()))
             I.raise_("KeyError", node)
+        if getattr(g, "unique", False):
+            # type registry: the registered item is a quantity class
+            dk = tuple(sorted(self.norm_dims(key.dims).items()))
+            tid = self.dim_types.get(dk)
+            if tid is None:
+                tid = st.new_type()
+                self.dim_types[dk] = tid
+            return ClsV(tid)
         return self.unit_for_term(key)
 
     def unit_for_term(self, t: TermV) -> UnitV:
